@@ -391,6 +391,7 @@ type fnExtra struct {
 }
 
 type fnGen struct {
+	objArgs   bool // directive objargs: emit <f>_objargs after every function
 	externs   map[string]bool // "pkg.F": calls are translated as calls of a function argument
 	file      *ast.File
 	funcs     map[string]*fnFunc // by spec and by call name
@@ -806,6 +807,14 @@ func fnGenerate(f *ast.File, specs []string) (string, []string) {
 			}
 			continue
 		}
+		if sp == "objargs" {
+			// objargs -- after every function, the list of its arguments that stand for methods (or the
+			// nil test / nil value) of object fields, by NAME in argument order: <f>_objargs.  The
+			// arguments are positional; a tie states this list, so that handing the function generated
+			// from stree's Replace to an argument that stands for Add is noticed.
+			g.objArgs = true
+			continue
+		}
 		if strings.HasPrefix(sp, "cap:") {
 			// cap:Queue.data -- the capacity of the slice field is tracked in every function that assigns it as a whole
 			if g.capFields == nil {
@@ -879,7 +888,7 @@ func fnGenerate(f *ast.File, specs []string) (string, []string) {
 		}
 		g.translate(fn, emit)
 		if fn.state == 2 {
-			emitted = append(emitted, fn.text)
+			emitted = append(emitted, fn.text+g.objArgsText(fn))
 		}
 	}
 	for _, fn := range g.order {
@@ -902,6 +911,25 @@ func fnGenerate(f *ast.File, specs []string) (string, []string) {
 		}
 	}
 	return b.String(), lostMsgs
+}
+
+// objArgsText (directive objargs): the object-field arguments of fn by name, in argument order.
+func (g *fnGen) objArgsText(fn *fnFunc) string {
+	if !g.objArgs {
+		return ""
+	}
+	var names []string
+	for _, e := range fn.extras {
+		switch {
+		case strings.HasPrefix(e.key, "obj:"):
+			names = append(names, "\""+strings.TrimPrefix(e.key, "obj:")+"\"%string")
+		case strings.HasPrefix(e.key, "objnil:"):
+			names = append(names, "\""+strings.TrimPrefix(e.key, "objnil:")+" == nil\"%string")
+		case strings.HasPrefix(e.key, "objnilval:"):
+			names = append(names, "\"nil "+strings.TrimPrefix(e.key, "objnilval:")+"\"%string")
+		}
+	}
+	return "\n(* the arguments of " + fn.name + " that stand for an object field's methods / nil test / nil value, in argument order *)\nDefinition " + fn.name + "_objargs : list String.string := [" + strings.Join(names, "; ") + "].\n"
 }
 
 func (g *fnGen) translate(fn *fnFunc, emit func(*fnFunc)) {
